@@ -738,9 +738,24 @@ func constLike(v ssa.Value) (int64, bool) {
 					return k, true
 				}
 				// sizeOfX = int(reflect.TypeOf(x).Size()): the size of x's static type
-				if call, ok := stripConv(sts[0].val).(*ssa.Call); ok && call.Call.IsInvoke() && call.Call.Method.Name() == "Size" {
-					if tc, ok := call.Call.Value.(*ssa.Call); ok && tc.Call.StaticCallee() != nil && funcFullName(tc.Call.StaticCallee()) == "reflect.TypeOf" {
-						if mi, ok := tc.Call.Args[0].(*ssa.MakeInterface); ok && constLikeCtx.Root.TypesSizes != nil {
+				if of := reflectSizeOperand(stripConv(sts[0].val)); of != nil {
+					if mi, ok := of.(*ssa.MakeInterface); ok && constLikeCtx.Root.TypesSizes != nil {
+						return constLikeCtx.Root.TypesSizes.Sizeof(mi.X.Type()), true
+					}
+				}
+				// ... or the same through a small helper: sizeOfX = sizeOf(x), func sizeOf(v interface{}) int { return int(reflect.TypeOf(v).Size()) }
+				if call, ok := stripConv(sts[0].val).(*ssa.Call); ok && !call.Call.IsInvoke() && len(call.Call.Args) == 1 {
+					if h := call.Call.StaticCallee(); h != nil && h.Blocks != nil && len(h.Params) == 1 && constLikeCtx.inRoot(h) {
+						all, n := true, 0
+						for _, b := range h.Blocks {
+							if ret, ok := b.Instrs[len(b.Instrs)-1].(*ssa.Return); ok {
+								n++
+								if len(ret.Results) != 1 || reflectSizeOperand(stripConv(ret.Results[0])) != ssa.Value(h.Params[0]) {
+									all = false
+								}
+							}
+						}
+						if mi, ok := call.Call.Args[0].(*ssa.MakeInterface); ok && all && n > 0 && constLikeCtx.Root.TypesSizes != nil {
 							return constLikeCtx.Root.TypesSizes.Sizeof(mi.X.Type()), true
 						}
 					}
@@ -749,6 +764,19 @@ func constLike(v ssa.Value) (int64, bool) {
 		}
 	}
 	return 0, false
+}
+
+// reflectSizeOperand: v is reflect.TypeOf(x).Size(); returns x.
+func reflectSizeOperand(v ssa.Value) ssa.Value {
+	call, ok := v.(*ssa.Call)
+	if !ok || !call.Call.IsInvoke() || call.Call.Method.Name() != "Size" {
+		return nil
+	}
+	tc, ok := call.Call.Value.(*ssa.Call)
+	if !ok || tc.Call.StaticCallee() == nil || funcFullName(tc.Call.StaticCallee()) != "reflect.TypeOf" || len(tc.Call.Args) != 1 {
+		return nil
+	}
+	return tc.Call.Args[0]
 }
 
 func relOff(v ssa.Value, isAnchor func(ssa.Value) bool, depth int) (int64, bool) {
@@ -815,6 +843,42 @@ func flowsTo(c *Ctx, v ssa.Value, sink func(user ssa.Instruction, v ssa.Value) b
 			for i, a := range x.Common().Args {
 				if a == v && i < len(sc.Params) && flowsTo(c, sc.Params[i], sink, depth+1, seen) {
 					return true
+				}
+			}
+		case *ssa.Return:
+			// handed back to the callers: the matching result at every call site
+			for i, res := range x.Results {
+				if res != v {
+					continue
+				}
+				for _, site := range c.callsTo(x.Parent()) {
+					call, ok := site.(*ssa.Call)
+					if !ok {
+						continue
+					}
+					if len(x.Results) == 1 {
+						if flowsTo(c, call, sink, depth+1, seen) {
+							return true
+						}
+						continue
+					}
+					if call.Referrers() == nil {
+						continue
+					}
+					for _, r2 := range *call.Referrers() {
+						if ex, ok := r2.(*ssa.Extract); ok && ex.Index == i && flowsTo(c, ex, sink, depth+1, seen) {
+							return true
+						}
+					}
+				}
+			}
+		case *ssa.Store:
+			// kept in a local cell (a named result that was not lifted): every load of the cell
+			if al, ok := x.Addr.(*ssa.Alloc); ok && x.Val == v && al.Referrers() != nil {
+				for _, r2 := range *al.Referrers() {
+					if ld, ok := r2.(*ssa.UnOp); ok && ld.Op == token.MUL && flowsTo(c, ld, sink, depth+1, seen) {
+						return true
+					}
 				}
 			}
 		}
